@@ -59,7 +59,18 @@ impl<'a, N: Normalizer> Html5Serializer<'a, N> {
         cdata_section_names: &'a [NameId],
         normalizer: N,
     ) -> Self {
-        let extra_declarations = xot.namespaces_in_scope(node).collect();
+        // in scope declarations of the node we start with; as in
+        // scoped_declarations, a default namespace that is not the namespace
+        // of the element itself is not written and thus not in scope
+        let element_namespace = xot
+            .element(node)
+            .map(|element| xot.namespace_for_name(element.name()));
+        let extra_declarations = xot
+            .namespaces_in_scope(node)
+            .filter(|(prefix_id, namespace_id)| {
+                *prefix_id != xot.empty_prefix() || Some(*namespace_id) == element_namespace
+            })
+            .collect();
         let fullname_serializer = FullnameSerializer::new(xot, extra_declarations);
         Self {
             xot,
